@@ -20,7 +20,7 @@ def _rel(f):
 @core.safe
 def tree_worker(arg):
     block, seed, mod = arg
-    if mod > 1 and hash(block) % mod:
+    if not core.sampled(block, mod):
         return None
     st = tlaval.parse_state_block(block)
     files, out = st["case"]["files"], st["out"]
@@ -106,7 +106,7 @@ def files_vs_namespace_worker(arg):
     """read_files for a target subset agrees with the specification and with read_namespace's types."""
     import pydsdl
     block, mod = arg
-    if mod > 1 and hash(block) % mod:
+    if not core.sampled(block, mod):
         return None
     st = tlaval.parse_state_block(block)
     if st["ph"] != 2:
@@ -219,7 +219,7 @@ def run(ctx):
     c02.run_cfg(ctx, "Namespaces", "NS_tree_quick.cfg" if quick else "NS_tree_thorough.cfg", tree_worker, "tree",
                 mk=lambda blocks: [(b, ctx.seed, 6 if quick else 8) for b in blocks])
     c02.run_cfg(ctx, "Namespaces", "NS_dirs.cfg", dirs_worker, "dirs",
-                mk=lambda blocks: [(b, ctx.seed) for b in blocks if (not quick) or hash(b) % 3 == 0])
+                mk=lambda blocks: [(b, ctx.seed) for b in blocks if (not quick) or core.sampled(b, 3)])
     c02.run_cfg(ctx, "Reader", "Reader_files2.cfg", files_vs_namespace_worker, "files2", mk=lambda blocks: [(b, 2 if quick else 1) for b in blocks])
     c02.run_cfg(ctx, "Reader", "Reader_files3_lean_two.cfg" if quick else "Reader_files3_lean.cfg", files_vs_namespace_worker, "files3",
                 mk=lambda blocks: [(b, 16 if quick else 6) for b in blocks])
